@@ -83,6 +83,11 @@ func (this *ByteTransformSequence) Forward(src, dst []byte) (uint, uint, error) 
 	in, out := src, dst
 	swaps := 0
 
+	// The decompressor undoes the sequence in buffers dimensioned from the
+	// block size plus a padding area (1/16th of the block, at least 512 bytes).
+	// A transform that expands the data beyond that cannot be inverted there.
+	maxLength := blockSize + max(blockSize>>4, 512)
+
 	// Process transforms sequentially
 	for i := range this.transforms {
 		var err error
@@ -97,9 +102,10 @@ func (this *ByteTransformSequence) Forward(src, dst []byte) (uint, uint, error) 
 		}
 
 		// Apply forward transform
-		if _, length, err = this.transforms[i].Forward((in)[0:length], out); err != nil {
+		if _, length, err = this.transforms[i].Forward((in)[0:length], out); err != nil || length > maxLength {
 			// Transform failed. Either it does not apply to this type
-			// of data or a recoverable error occurred => revert
+			// of data, a recoverable error occurred or the output is too
+			// big for the buffers of the decompressor => revert
 			length = savedLength
 			continue
 		}
